@@ -41,6 +41,9 @@ CHECKS = {
  "C14": ("other", "dispatch/path enumeration over closure slots + setter who-writes-what + loop gate analysis (go/ssa)", "DESIGN.md §3 R-DISPATCH/R-STOREGUARD, §4 C14",
    "For each closure slot the dispatcher's return paths are enumerated: closure invoked iff installed, built-in code not run on that path, the closure's own result returned, built-in code run when the slot is nil; each setter stores its argument into exactly its slot; the policy-gated append consults the policy only while room remains, once per iteration, appends only the approved value, and a rejection records the policy's error and ends the batch; BASIC stacks refuse a presentation policy with an error and rendering is gated by canString (table checked).",
    "Structural necessary conditions (level other): 'once per offered value' is one call site in the per-value loop, not a runtime count; closure bodies are opaque."),
+ "C15": ("other", "effect (write-set) analysis rooted at the source + guard facts at the worker call + linear entailment of the free-slot condition at the push + copy-loop shape and verdict-expression checks + scoped panic-site census (go/ssa)", "DESIGN.md §3 R-XFER, §4 C15",
+   "Transfer writes nothing rooted at the source and never pushes when destination == source; the worker runs only for an initialised source and a convertible, writable destination (flag read from the destination); nothing is pushed unless the elements fit the destination's free slots; the loop copies src.index(0..Len-1), nil elements included, one per iteration; success is exactly 'the destination grew by Len(src)'; no destination value can panic.",
+   "Level other: order of the copied elements in the destination follows from C01's push rule, not restated here."),
  "C17": ("other", "whole-package census of nil-dereference and reflect panic sites discharged by path-sensitive facts, relational summaries and (conditional) interprocedural preconditions; re-analysis under a nil handle for zero results (go/ssa)", "DESIGN.md §3 R-INIT/R-NIL/R-REFL/R-HANDLE, §4 C17",
    "Every nil-panic-capable instruction (about 1460) and every panicking reflect.Value call of the package is discharged on every path or turned into a precondition checked at all call sites; exported methods may require nothing of their receiver, so zero-valued and freed instances cannot panic. Only Free/Marshal/Init can write a handle (type-level + effect check). Each exported value-receiver method is re-analysed assuming a nil embedded pointer: all return paths yield the zero answer (documented exceptions listed). Reset's reachable code has no branch on an element being nil and writes only content.",
    "Level other (a census with discharge is close to a proof of nil/reflect panic freedom, but the domains are hand-written). Assumes the pointer receiver of the four pointer-receiver methods is non-nil; user closures excluded; index-range panics belong to C08."),
